@@ -185,3 +185,84 @@ Example C01_json_example_members :
   to_json llrp_jtable (VStruct false 241 [VBitArr 17 [255; 0; 128]] []) =
     Some (JObj [("EPCNumBits"%string, JNum 17); ("EPC"%string, JStr [47; 119; 67; 65])]).
 Proof. repeat split; vm_compute; reflexivity. Qed.
+
+(* ================= the decoder's CODE ("way 1") =================
+   The theorems above are about the model decoder Codec/Decode.v.  On every run tools/go-dec-ir translates the
+   current pkg/llrp/generated_unmarshal.go into the value-producing decoder IR (DecFIR/IR.v, semantics DecFIR/Sem.v:
+   slices, index/slice panics, error returns, `make`/`copy`, loops with fuel) and the kernel checks
+   `dprogs_match llrp_table dec_all = true` (build/gen/C01/Ob_decoder.v): the translated code is, container by
+   container, what the schema compiles to.  The theorem below makes that check mean something: for EVERY table that
+   passes the boolean side conditions [dec_schema_ok] and EVERY program set accepted by [dprogs_match], whatever byte
+   string the model decodes to a well-formed value, the code decodes to the same value — it does not panic, does not
+   return an error, does not run out of fuel (the model's fuel, +1 for a message, is enough).
+   The converse inclusion is false (the code accepts trailing bytes and any order inside a loop group), and so is the
+   statement without `wfv`: see C01_decoder_equality_refuted. *)
+From LLRP Require Import EncIR.IR DecFIR.IR DecFIR.Compile DecFIR.Sem DecFIR.CompileCorrect.
+
+Theorem C01_decoder_code_refines_model : forall t ps,
+  dec_schema_ok t = true -> dprogs_match t ps = true ->
+  forall msg tid bs v fuel, byte_list bs -> decode t fuel msg tid bs = Some v -> wfv t v ->
+    run ps (if msg then S fuel else fuel) msg tid bs = DOk v.
+Proof. exact dprogs_match_correct. Qed.
+Print Assumptions C01_decoder_code_refines_model.
+
+(* hence (with C01_decode_encode): the code decodes the encoding of every well-formed value to that value *)
+Theorem C01_decoder_code_decodes_encodings : forall t ps,
+  dec_schema_ok t = true -> dprogs_match t ps = true ->
+  forall msg tid fs ss bs fuel, wfv t (VStruct msg tid fs ss) -> (depth (VStruct msg tid fs ss) <= fuel)%nat ->
+    encode t (VStruct msg tid fs ss) = Some bs ->
+    run ps (if msg then S fuel else fuel) msg tid bs = DOk (VStruct msg tid fs ss).
+Proof. exact dprogs_match_encode. Qed.
+Print Assumptions C01_decoder_code_decodes_encodings.
+
+(* the side conditions hold of the pinned LLRP table (by computation), so for LLRP only the per-run check remains *)
+Theorem C01_decoder_side_conditions_llrp : dec_schema_ok llrp_table = true.
+Proof. exact llrp_dec_schema_ok. Qed.
+Print Assumptions C01_decoder_side_conditions_llrp.
+
+Theorem C01_decoder_code_refines_model_llrp : forall ps,
+  dprogs_match llrp_table ps = true ->
+  forall msg tid bs v fuel, byte_list bs -> decode llrp_table fuel msg tid bs = Some v -> wfv llrp_table v ->
+    run ps (if msg then S fuel else fuel) msg tid bs = DOk v.
+Proof. exact dprogs_match_correct_llrp. Qed.
+Print Assumptions C01_decoder_code_refines_model_llrp.
+
+(* why it is an inclusion and why `wfv` is there: of the decoders the LLRP schema compiles to (and of Go),
+   (1) a fixed-size TLV declaring a stray extra body byte is accepted by the code, rejected by the model;
+   (2) a Custom parameter before a TagReportData is accepted by the code, rejected by the model;
+   (3) a UHFBandCapabilities without any TransmitPowerLevel is decoded by the model to a value outside the domain
+       (wfvb = false) and rejected by the code *)
+Theorem C01_decoder_equality_refuted :
+  (exists bs v, run llrp_dec 16 false 139 bs = DOk v /\ decode llrp_table 16 false 139 bs = None) /\
+  (exists bs v, run llrp_dec 16 true 61 bs = DOk v /\ decode llrp_table 16 true 61 bs = None) /\
+  (exists bs v, decode llrp_table 16 false 144 bs = Some v /\ wfvb llrp_table v = false /\
+                run llrp_dec 16 false 144 bs = DErr).
+Proof.
+  split; [exact decoder_equality_refuted_trailing|]. split.
+  - destruct decoder_equality_refuted_order as ((v & H1) & H2 & _). exists out_of_order_report, v. split; assumption.
+  - destruct decoder_forward_needs_wf_refuted as ((v & H1 & H2 & H3) & _). eauto.
+Qed.
+Print Assumptions C01_decoder_equality_refuted.
+
+(* non-vacuity: the decoders the LLRP schema compiles to pass the per-run check; on the 84-byte encoding of the
+   ROAccessReport above (two TagReportData, three levels) the model decodes with fuel 2 and the code with fuel 3
+   returns the report; with fuel 2 the code's outcome is the distinct DFuel, which the theorem excludes *)
+Example C01_decoder_code_example :
+  dprogs_match llrp_table llrp_dec = true /\
+  exists bs, encode llrp_table example_report = Some bs /\
+    decode llrp_table 2 true 61 bs = Some example_report /\
+    run llrp_dec 3 true 61 bs = DOk example_report /\ run llrp_dec 2 true 61 bs = DFuel.
+Proof.
+  split; [exact llrp_dec_matches|].
+  exists (match encode llrp_table example_report with Some b => b | None => [] end).
+  repeat split; vm_compute; reflexivity.
+Qed.
+
+(* the same fact obtained from the theorem instead of by running the IR *)
+Example C01_decoder_code_example_by_theorem : forall bs,
+  encode llrp_table example_report = Some bs -> run llrp_dec 4 true 61 bs = DOk example_report.
+Proof.
+  intros bs E.
+  apply (C01_decoder_code_decodes_encodings llrp_table llrp_dec llrp_dec_schema_ok llrp_dec_matches true 61 _ _ bs 3);
+    [apply C01_example_wf|vm_compute; apply le_n|exact E].
+Qed.
